@@ -3,6 +3,8 @@
 Not urwid code and never claimed as verified: each function exercises builtins / operators the real
 functions under contract rely on.  pyvc/xcheck.py samples concrete inputs, runs the function in CPython and
 symbolically (inputs equated to the constants) and demands identical results."""
+import typing
+
 
 
 def x_floordiv_mod(a: int, b: int):
@@ -138,3 +140,29 @@ def x_max_min_star(a: int, items: list):
 def x_sum_filtered(items: list, d: int, k: int):
     # sum of a filtered, mapped generator over a slice (Columns.get_cursor_coords)
     return sum(d + w for w in items[:k] if w > 0)
+
+
+class _XPair(typing.NamedTuple):
+    first: int
+    second: int = 5
+
+
+class _XBox(typing.NamedTuple):
+    trim: int
+    pair: _XPair
+    items: list
+
+
+def x_namedtuple(a: int, b: int, items: list):
+    """typing.NamedTuple constructors (positional, keyword, default), unpacking, indexing, field access, len,
+    equality with a plain tuple, a list stored as a component and mutated afterwards (model: builtins_model.NTuple)."""
+    p = _XPair(a, b)
+    q = _XPair(second=a, first=b)
+    d = _XPair(a)
+    box = _XBox(a - b, p, items)
+    items.append(b)
+    trim, (f, s), its = box
+    r = 0
+    for x in box.items:
+        r += x
+    return (p[0], p.second, q.first, q[1], d.second, len(box), trim, f + s, r, p == (a, b), box.pair.first, its is items, len(its))
